@@ -80,3 +80,15 @@ CORPUS += [
     M("missing-hook-returns-default", "msmart/utils.py", "    @classmethod\n    def list(cls)", "    @classmethod\n    def _missing_(cls, value):\n        return cls.DEFAULT\n\n    @classmethod\n    def list(cls)"),
     M("refresh-skips-unchanged-state", D, "        for response in responses:\n            self._update_state(response)", "        for response in responses:\n            if isinstance(response, StateResponse) and response.payload == getattr(self, \"_last\", None):\n                continue\n            self._update_state(response)"),
 ]
+# round 10: growth - a new field read past the established length; a subclass branch behind its base class
+CORPUS += [
+    M("new-field-read-past-minimum", "msmart/device/AC/command.py", "        self.display_on = (payload[14] != 0x70)\n",
+      "        self.display_on = (payload[14] != 0x70)\n        self.error_code = payload[16] if (payload[1] & 0x80) else 0\n"),
+    M("n-new-field-read-guarded", "msmart/device/AC/command.py", "        self.display_on = (payload[14] != 0x70)\n",
+      "        self.display_on = (payload[14] != 0x70)\n        self.error_code = payload[16] if len(payload) > 16 else None\n", "S"),
+    M("n-new-field-read-after-length-test", "msmart/device/AC/command.py", "        self.freeze_protection = bool(payload[21] & 0x80)\n",
+      "        self.freeze_protection = bool(payload[21] & 0x80)\n        n = len(payload)\n        if n >= 24:\n            self.error_code = payload[23]\n", "S"),
+    M("subclass-branch-behind-base", "msmart/device/AC/device.py", "        elif isinstance(res, PropertiesResponse):",
+      "        elif isinstance(res, _ShortState):\n            self._power_state = res.power_on\n        elif isinstance(res, PropertiesResponse):",
+      also=[("msmart/device/AC/device.py", "class AirConditioner(Device):", "class _ShortState(StateResponse):\n    pass\n\n\nclass AirConditioner(Device):")]),
+]
